@@ -17,7 +17,9 @@ muts = array of `["K",key,v] | ["I",key,n] | ["A",key,v] | ["D",key] | ["R"]`.
 
 Transition system:
   `cinit|mem|sql|<ty>|<schema>|<object or ->`   `ctask|set|..` `ctask|setstate|..` `ctask|clear` `ctask|edit|<chunks>`
-  `crun|<t>` → `ok <sys>` | `disabled`     `cserial|<t,t,..>` → `<store>`
+  `cspawn|<c>|<p>|<k>` (after the `ctask` lines): task c is created by chunk k of the edit_state body of task p → `ok`
+  `crun|<t>` `ccancel|<t>` → `ok <sys>` | `disabled`     `cserial|<t,t,..>` → `<store>`
+  (in `<sys>` a task that has not been created yet shows as `U`)
 -/
 namespace Drv.StateStore
 
@@ -173,8 +175,8 @@ inductive Machine where
   | spec (s : Spec)
   | mem (m : Mem)
   | sql (s : Sql)
-  | cmem (prog : List COp) (init : Mem) (s : Sys Mem)
-  | csql (prog : List COp) (init : Sql) (s : Sys Sql)
+  | cmem (prog : List COp) (sp : List (Nat × Nat × Nat)) (init : Mem) (s : SpSys Mem)
+  | csql (prog : List COp) (sp : List (Nat × Nat × Nat)) (init : Sql) (s : SpSys Sql)
 
 structure St where
   m : Machine := .none
@@ -197,9 +199,14 @@ where
 
 def showNats (xs : List Nat) : String := ",".intercalate (xs.map toString)
 
-def showSys {σ : Type} (showStore : σ → String) (prog : List COp) (s : Sys σ) : String :=
+/-- `(child, parent, chunk)` triples as a `Spawn` map (the first entry of a child counts) -/
+def spOf (l : List (Nat × Nat × Nat)) : Spawn := fun c => (l.find? fun e => e.1 == c).map (·.2)
+
+def showSys {σ : Type} (showStore : σ → String) (prog : List COp) (sp : Spawn) (ss : SpSys σ) : String :=
+  let s := ss.sys
   let h := match s.holder with | some t => toString t | none => "-"
-  let pcs := (List.range s.pcs.length).map fun t => showPc prog[t]? (s.pcs.getD t .idle)
+  let pcs := (List.range s.pcs.length).map fun t =>
+    if ss.live sp t then showPc prog[t]? (s.pcs.getD t .idle) else "U"
   s!"{showStore s.store} holder={h} queue={showNats s.queue} pcs={",".intercalate pcs} log={showNats s.log}"
 
 def showMemStore (m : Mem) : String := showRoot m.root
@@ -233,44 +240,53 @@ def step (st : St) (line : String) : St × String :=
         if be == "mem" then
           let m0 := Mem.init sc ty
           let m1 := match io with | some d => (Mem.step m0 (.setState .same d)).1 | none => m0
-          ({ m := .cmem [] m1 (Sys.init m1 0), sc := sc, ty := ty }, "ok")
+          ({ m := .cmem [] [] m1 (SpSys.init m1 0), sc := sc, ty := ty }, "ok")
         else if be == "sql" then
           let s0 := Sql.init sc ty
           let s1 := match io with | some d => (Sql.step s0 (.setState .same d)).1 | none => s0
-          ({ m := .csql [] s1 (Sys.init s1 0), sc := sc, ty := ty }, "ok")
+          ({ m := .csql [] [] s1 (SpSys.init s1 0), sc := sc, ty := ty }, "ok")
         else (st, "bad-op")
     | _, _ => (st, "bad-op")
   | "ctask" :: rest =>
     match parseCOp? st.sc st.ty rest, st.m with
-    | some op, .cmem prog ini _ => let p := prog ++ [op]; ({ st with m := .cmem p ini (Sys.init ini p.length) }, "ok")
-    | some op, .csql prog ini _ => let p := prog ++ [op]; ({ st with m := .csql p ini (Sys.init ini p.length) }, "ok")
+    | some op, .cmem prog sp ini _ => let p := prog ++ [op]; ({ st with m := .cmem p sp ini (SpSys.init ini p.length) }, "ok")
+    | some op, .csql prog sp ini _ => let p := prog ++ [op]; ({ st with m := .csql p sp ini (SpSys.init ini p.length) }, "ok")
     | _, _ => (st, "bad-op")
+  | ["cspawn", cs, ps, ks] =>
+    match parseNat? cs, parseNat? ps, parseNat? ks, st.m with
+    | some c, some p, some k, .cmem prog sp ini _ =>
+      if sp.any (fun e => e.1 == c) then (st, "bad-op")
+      else ({ st with m := .cmem prog (sp ++ [(c, p, k)]) ini (SpSys.init ini prog.length) }, "ok")
+    | some c, some p, some k, .csql prog sp ini _ =>
+      if sp.any (fun e => e.1 == c) then (st, "bad-op")
+      else ({ st with m := .csql prog (sp ++ [(c, p, k)]) ini (SpSys.init ini prog.length) }, "ok")
+    | _, _, _, _ => (st, "bad-op")
   | ["crun", ts] =>
     match parseNat? ts, st.m with
-    | some t, .cmem prog ini s =>
-      match Sys.run memBackend prog s t with
-      | some s' => ({ st with m := .cmem prog ini s' }, "ok " ++ showSys showMemStore prog s')
+    | some t, .cmem prog sp ini s =>
+      match SpSys.exec memBackend prog (spOf sp) s (.run t) with
+      | some s' => ({ st with m := .cmem prog sp ini s' }, "ok " ++ showSys showMemStore prog (spOf sp) s')
       | none => (st, "disabled")
-    | some t, .csql prog ini s =>
-      match Sys.run sqlBackend prog s t with
-      | some s' => ({ st with m := .csql prog ini s' }, "ok " ++ showSys showSqlStore prog s')
+    | some t, .csql prog sp ini s =>
+      match SpSys.exec sqlBackend prog (spOf sp) s (.run t) with
+      | some s' => ({ st with m := .csql prog sp ini s' }, "ok " ++ showSys showSqlStore prog (spOf sp) s')
       | none => (st, "disabled")
     | _, _ => (st, "bad-op")
   | ["ccancel", ts] =>
     match parseNat? ts, st.m with
-    | some t, .cmem prog ini s =>
-      match Sys.cancel s t with
-      | some s' => ({ st with m := .cmem prog ini s' }, "ok " ++ showSys showMemStore prog s')
+    | some t, .cmem prog sp ini s =>
+      match SpSys.exec memBackend prog (spOf sp) s (.cancel t) with
+      | some s' => ({ st with m := .cmem prog sp ini s' }, "ok " ++ showSys showMemStore prog (spOf sp) s')
       | none => (st, "disabled")
-    | some t, .csql prog ini s =>
-      match Sys.cancel s t with
-      | some s' => ({ st with m := .csql prog ini s' }, "ok " ++ showSys showSqlStore prog s')
+    | some t, .csql prog sp ini s =>
+      match SpSys.exec sqlBackend prog (spOf sp) s (.cancel t) with
+      | some s' => ({ st with m := .csql prog sp ini s' }, "ok " ++ showSys showSqlStore prog (spOf sp) s')
       | none => (st, "disabled")
     | _, _ => (st, "bad-op")
   | ["cserial", os] =>
     match parseNats? os, st.m with
-    | some order, .cmem prog ini _ => (st, showMemStore (serial memBackend prog ini order))
-    | some order, .csql prog ini _ => (st, showSqlStore (serial sqlBackend prog ini order))
+    | some order, .cmem prog _ ini _ => (st, showMemStore (serial memBackend prog ini order))
+    | some order, .csql prog _ ini _ => (st, showSqlStore (serial sqlBackend prog ini order))
     | _, _ => (st, "bad-op")
   | _ =>
     match st.m with
